@@ -333,6 +333,27 @@ OWNER_WRITE_CASES = [
 ]
 
 
+# ---- closures produced through a built-in higher-order method: `list.map(callback)` collects one closure per element; each
+# owns the variables of ITS execution of the callback and shares those of the enclosing scopes.  The closures are taken out
+# of the collected list (constant / variable / loop index, `remove`, `filter` first) and called, at module level and inside a
+# function; the annotated spelling (`fs: [fn() -> int...] = ..`) is the control.
+MK3 = "l: [int...] = [1, 2, 3]\ntotal = 0\nfs%s = l.map(fn(x: int) -> fn() -> int {\n  y = x * 2\n  return fn() -> int {\n    modify y = y + 1\n    modify total = total + 1\n    return y\n  }\n})\n"
+TEN = "l: [int...] = [1, 2, 3]\nfs = l.map(fn(x: int) -> fn() -> int {\n  return fn() -> int {\n    return x * 10\n  }\n})\n"
+COLLECTED_CASES = [
+    ("annotated-control", "index", MK3 % ": [fn() -> int...]" + "g = fs[0]\nprint g()\nprint g()\nh = fs[2]\nprint h()\nprint total\n", ["3", "4", "7", "3"]),
+    ("fresh-variables-per-callback-run", "index", MK3 % "" + "g = fs[0]\nprint g()\nprint g()\nh = fs[2]\nprint h()\nprint total\n", ["3", "4", "7", "3"]),
+    ("called-in-place", "index", TEN + "print (fs[1])()\nk = 2\nprint (fs[k])()\nfrom 0 to 3, i {\n  f = fs[i]\n  print f()\n}\n", ["20", "30", "10", "20", "30"]),
+    ("owner-assignment-seen", "index", "base = 1\nl: [int...] = [1, 2]\nfs = l.map(fn(x: int) -> fn() -> int {\n  return fn() -> int {\n    return base + x\n  }\n})\nf = fs[1]\nprint f()\nbase = 10\nprint f()\ng = fs[0]\nprint g()\n",
+     ["3", "12", "11"]),
+    ("inside-a-function", "index", "mk = fn(l: [int...]) -> int {\n  c = 0\n  fs = l.map(fn(x: int) -> fn() -> int {\n    return fn() -> int {\n      modify c = c + x\n      return c\n    }\n  })\n  a = fs[0]\n  b = fs[1]\n  a()\n  b()\n  r = a()\n  return r * 100 + c\n}\nprint mk([1, 2, 3])\nprint mk([5, 5])\n",
+     ["404", "1515"]),
+    ("passed-as-argument", "index", TEN + "apply = fn(f: fn() -> int) -> int {\n  return f() + 1\n}\nprint apply(fs[2])\nprint fs.map(fn(f: fn() -> int) -> int {\n  return f()\n})\n", ["31", "[10, 20, 30]"]),
+    ("filtered-then-called", "index", TEN + "ev = fs.filter(fn(f: fn() -> int) -> bool {\n  return f() > 10\n})\nh = ev[0]\nprint h()\nprint ev.len()\n", ["20", "2"]),
+    ("closure-over-a-collected-list", "index", "l: [int...] = [1, 2]\nll = l.map(fn(x: int) -> [int...] {\n  return [x, x + 1]\n})\nfs = ll.map(fn(q: [int...]) -> fn() -> int {\n  return fn() -> int {\n    return q[0] + q[1]\n  }\n})\ng = fs[1]\nprint g()\n", ["5"]),
+    ("removed-then-called", "remove", TEN + "g = fs.remove(0)\nprint g()\nprint fs.len()\nh = fs[0]\nprint h()\n", ["10", "2", "20"]),
+]
+
+
 def run(ctx):
     ok = core.coq_props(ctx, "Props/C07.v")
     binary = core.build_repo()
@@ -399,13 +420,22 @@ def run(ctx):
             ctx.report("one-variable-one-cell:" + kind, "owner and closures share ONE variable, a shadowing local is a different one (%s): %s, expected %r: %s"
                        % (form, "the program is refused" if refused else "printed %r (exit %d)" % (got, rc), exp, (out + err)[-300:].replace("\n", " ") if rc != 0 else ""),
                        {"program": src, "expected": exp, "observed": got, "rc": rc, "stderr": err[-600:], "how": "mscript run main.ms -q"})
+    for (form, how, src, exp), (rc, out, err) in zip(COLLECTED_CASES, programs.pmap(one_view, [(c[2], c[3]) for c in COLLECTED_CASES])):
+        got = out.split("\n")[:-1]
+        if rc != 0 or got != exp:
+            refused = "Did not compile" in (out + err)
+            ctx.report("closures-collected-by-map:" + ("not-callable-after-" + how if refused else "history"),
+                       "closures collected by `list.map` and taken out of the result by %s (%s): %s, expected %r: %s"
+                       % (how, form, "the program is refused" if refused else "printed %r (exit %d)" % (got, rc), exp, (out + err)[-300:].replace("\n", " ") if rc != 0 else ""),
+                       {"program": src, "expected": exp, "observed": got, "rc": rc, "stderr": err[-600:], "how": "mscript run main.ms -q"})
+    ctx.cov["collected_by_map_cases"] = len(COLLECTED_CASES)
     ctx.cov["owner_write_cases"] = len(OWNER_WRITE_CASES)
     ctx.cov["closure_flag_cases"] = len(CLOSURE_FLAG_CASES)
     ctx.cov["self_capture_cases"] = len(SELF_CAPTURE_CASES)
     ctx.cov["view_cases"] = len(vcs)
     ctx.cov["capture_position_cases"] = len(cps)
     ctx.cov["modify_alias_cases"] = len(MODIFY_ALIAS_CASES)
-    ctx.cov["evaluations"] = st["programs"] + len(vcs) + len(cps) + len(MODIFY_ALIAS_CASES) + len(CLOSURE_FLAG_CASES) + len(SELF_CAPTURE_CASES) + len(OWNER_WRITE_CASES)
+    ctx.cov["evaluations"] = st["programs"] + len(vcs) + len(cps) + len(MODIFY_ALIAS_CASES) + len(CLOSURE_FLAG_CASES) + len(SELF_CAPTURE_CASES) + len(OWNER_WRITE_CASES) + len(COLLECTED_CASES)
     ctx.cov["distinct_nontrivial"] = len(set(r["proj"]["files"]["main.ms"] for r in results if r["status"] == "ran" and "modify" in r["proj"]["files"]["main.ms"]))
     ctx.cov["rule"] = ("closure programs: 1-3 owners (module-level variable with reader/writer/shadowing closures; factory returning a stepping closure that "
                        "shares a cell with a second closure, instantiated twice; depth-3 nesting with a modify from the innermost function), random histories of "
@@ -417,5 +447,5 @@ def run(ctx):
     ctx.cov["trusted_base"] = ["Coq 8.16.1 kernel; no axioms", "extraction + drivers", "hooks H1/H3"]
     ctx.assumptions = ["Lang/Eval.v (lexical scoping, capture by reference, modify writes the captured cell, plain assignment declares a local) is the specification",
                        "capture lists: T1 compares the make_function arguments of the real compiler with Compile.free_vars as sets"]
-    spec_failed = any(v[0].startswith(("semantics:", "captured-variable:", "modify-is-not-a-declaration:", "captures-nothing-is-not-a-closure:", "closure-reachable-from-its-own-capture:", "one-variable-one-cell:")) for v in ctx.viol)
+    spec_failed = any(v[0].startswith(("semantics:", "captured-variable:", "modify-is-not-a-declaration:", "captures-nothing-is-not-a-closure:", "closure-reachable-from-its-own-capture:", "one-variable-one-cell:", "closures-collected-by-map:")) for v in ctx.viol)
     core.proof_or_search(ctx, ok, ["C07 obligations"], spec_failed)
